@@ -64,12 +64,13 @@ const (
 	c11Ack39_11
 	c11Ack10_40
 	c11Ack0_50
+	c11Probe // a datagram sent WITHOUT asking the pacer (quic-go: PTO probes and ACK-only packets bypass HasPacingBudget)
 	c11NActions
 )
 
 var c11ActionNames = [c11NActions]string{
 	"send1", "burst16", "drain", "pace16", "sleep", "sleep+1ns", "idle1s", "idle10s", "nextsec",
-	"ack(49,0)", "ack(50,0)", "ack(40,10)", "ack(39,11)", "ack(10,40)", "ack(0,50)",
+	"ack(49,0)", "ack(50,0)", "ack(40,10)", "ack(39,11)", "ack(10,40)", "ack(0,50)", "probe",
 }
 
 var c11Batches = [c11NActions][2]int{
@@ -89,6 +90,8 @@ const (
 var (
 	c11AlphaSeq = []c11Action{c11Send1, c11Burst, c11Sleep, c11Sleep1, c11Idle1, c11Idle10, c11NextSec,
 		c11Ack49_0, c11Ack50_0, c11Ack40_10, c11Ack39_11, c11Ack10_40, c11Ack0_50}
+	// unpaced sends interleaved with paced ones (added after the seeded change C11-1 was missed)
+	c11AlphaProbe = []c11Action{c11Send1, c11Drain, c11Probe, c11Pace, c11Sleep, c11Idle1, c11Ack50_0, c11Ack40_10}
 	c11AlphaDrain = []c11Action{c11Send1, c11Drain, c11Pace, c11Sleep, c11Sleep1, c11Idle1, c11Idle10, c11NextSec,
 		c11Ack49_0, c11Ack50_0, c11Ack40_10, c11Ack39_11, c11Ack10_40, c11Ack0_50}
 )
@@ -366,6 +369,15 @@ func (s *c11Sim) step(a c11Action) (eff, disabled bool, v *c11Viol) {
 			return true, false, v
 		}
 		return true, false, s.checkState()
+	case c11Probe:
+		// reported to the controller like any packet, but not released by pacing: it must not
+		// buy the pacer any budget
+		s.inflight += s.size
+		s.pn++
+		s.bs.OnPacketSent(s.mt(), s.inflight, s.pn, s.size, true)
+		s.packets++
+		s.hasSent, s.lastSend = true, s.now
+		return true, false, s.checkState()
 	case c11Pace:
 		for i := 0; i < c11PaceN; i++ {
 			if t := int64(s.bs.TimeUntilSend(s.inflight)); t > s.now {
@@ -619,6 +631,7 @@ func c11Enumerate(sh *evidence.Shard) {
 	parts := []c11PartCfg{
 		{"seq", c11AlphaSeq, dSeq},
 		{"drain", c11AlphaDrain, dDrain},
+		{"probe", c11AlphaProbe, dDrain + 1},
 	}
 	for _, pc := range parts {
 		p := sh.Part(pc.name, "enum")
@@ -686,7 +699,7 @@ func TestVerifC11(t *testing.T) {
 	evidence.Main(t, "C11", evidence.Seq{
 		Run: c11Enumerate,
 		Replay: func(part string, raw json.RawMessage) (bool, bool, string) {
-			if part != "seq" && part != "drain" {
+			if part != "seq" && part != "drain" && part != "probe" {
 				return false, false, ""
 			}
 			var c c11Case
